@@ -177,7 +177,7 @@ class Inliner:
     def _inlined(s, name, stack):
         if name in stack:
             raise Unsupported('recursion through %s' % name)
-        key = (name, s.root if s.indirect_filter else None)
+        key = (name, getattr(s, 'mode_tag', ''), s.root if s.indirect_filter else None)
         if key in s.cache:
             return s.cache[key]
         f = copy.deepcopy(s.mod.functions[name])
